@@ -128,7 +128,44 @@ MESH1 = {'RefLine': 'MeshLine1', 'RefTri': 'MeshTri1', 'RefQuad': 'MeshQuad1', '
 MESH2 = {'RefTri': 'MeshTri2', 'RefQuad': 'MeshQuad2', 'RefTet': 'MeshTet2', 'RefHex': 'MeshHex2'}
 
 
+def _min_tri_quality(m):
+    """smallest shape quality 4*sqrt(3)*area / (sum of squared edge lengths) of the cells of a triangular mesh"""
+    P = np.asarray(m.p)[:, np.asarray(m.t)[:3]]                  # (2, 3, nt): straight-sided corners
+    a, b, c = P[:, 0], P[:, 1], P[:, 2]
+    area = 0.5 * np.abs((b[0] - a[0]) * (c[1] - a[1]) - (b[1] - a[1]) * (c[0] - a[0]))
+    e2 = ((a - b) ** 2).sum(0) + ((b - c) ** 2).sum(0) + ((a - c) ** 2).sum(0)
+    return float((4 * np.sqrt(3) * area / e2).min())
+
+
+# the float error of the ElementGlobal family (numerical inverse of a Vandermonde matrix in global coordinates) grows
+# like h^-5 for the quintic Argyris element: measured worst scaled jump 1e-9 at h = 0.125, 1.4e-6 at h = 0.0275, 1.2e-4
+# at h = 0.012 (seed 92, a twice refined Delaunay mesh - a false alarm of this oracle, corrected by this gate).  With
+# h >= 0.04 the worst jump seen in 700 meshes is 4e-7, a factor 50 below GLOBAL_TOL; a real discontinuity is O(0.1).
+MIN_GLOBAL_H = 0.04
+
+
+def _min_tri_size(m):
+    """sqrt(2 * area) of the smallest cell of a triangular mesh"""
+    P = np.asarray(m.p)[:, np.asarray(m.t)[:3]]
+    a, b, c = P[:, 0], P[:, 1], P[:, 2]
+    return float(np.sqrt(np.abs((b[0] - a[0]) * (c[1] - a[1]) - (b[1] - a[1]) * (c[0] - a[0])).min()))
+
+
 def make_mesh(refdom_name, kind, rng, reorder=True, renum=True, min_quality=0.0):
+    """`_make_mesh`; when a minimal shape quality is asked for (the numerically conditioned ElementGlobal family) it
+    holds for the cells of the FINAL mesh, not only of the base mesh, together with a minimal cell size MIN_GLOBAL_H:
+    refinement chains make cells small (and bisection can halve angles), so such meshes are redrawn (the draw is part
+    of the recorded input)"""
+    if not min_quality or refdom_name != 'RefTri':
+        return _make_mesh(refdom_name, kind, rng, reorder, renum, min_quality)
+    for _ in range(60):
+        m, desc = _make_mesh(refdom_name, kind, rng, reorder, renum, min_quality)
+        if _min_tri_quality(m) >= 0.8 * min_quality and _min_tri_size(m) >= MIN_GLOBAL_H:
+            return m, desc
+    return _make_mesh(refdom_name, 'structured', rng, reorder, renum, min_quality)
+
+
+def _make_mesh(refdom_name, kind, rng, reorder=True, renum=True, min_quality=0.0):
     """a mesh built through the DEFAULT constructor from randomly renumbered / locally reordered data.
     kind in {'delaunay','structured','jiggled','curved','adaptive'}; returns (mesh, description dict).
     'adaptive' (simplices): a LIBRARY-PRODUCED mesh — m.refined(random marked cells) of such a mesh, followed by a random
